@@ -521,8 +521,13 @@ class FixedPoint:
     
         r = FixedPoint(self.sw, self.iw, self.fw , 0)
         w = self.sw + self.iw + self.fw
-        av = signExtend(self.v, w, w*2)
-        bv = signExtend(b.v, w, w*2)
+        if (self.sw == 0):
+            # unsigned format, the raw values are the operands
+            av = self.v
+            bv = b.v
+        else:
+            av = signExtend(self.v, w, w*2)
+            bv = signExtend(b.v, w, w*2)
         r.v = ((av * bv)>>self.fw)  & ((1<<w)-1)
         return r
 
